@@ -348,7 +348,13 @@ func c02Request(sp *spec.Spec, ex *rt.Exchange) *Verdict {
 		if strings.Count(d.Path, ".")+strings.Count(d.Path, "[")+strings.Count(d.Path, "{") > 1 {
 			nested = ":nested"
 		}
-		v.add(mkKey("mismatch", "payload-mismatch", fmt.Sprintf("%s:%s%s:%s:%s", loc, kind, nested, diffClass(d), valClass(d.Want)), Explain(sp, m, ex.Case.Sent)), "payload attribute differs at %s", d.String())
+		tags := Explain(sp, m, ex.Case.Sent)
+		if ex.Case.Raw != nil && strings.Contains(d.Path, ".$value.") {
+			// a hand-encoded request spells the members of a user type alternative by their design names inside the
+			// union's Value text (union.go): the difference lies inside such a value
+			tags = append(tags, "union-usertype-value-design-names")
+		}
+		v.add(mkKey("mismatch", "payload-mismatch", fmt.Sprintf("%s:%s%s:%s:%s", loc, kind, nested, diffClass(d), valClass(d.Want)), tags), "payload attribute differs at %s", d.String())
 	}
 	return v
 }
@@ -615,6 +621,12 @@ func Explain(sp *spec.Spec, m *spec.Method, sent any) []string {
 		if strings.HasPrefix(h.Body, "attr:") && so != nil {
 			if _, ok := so[strings.TrimPrefix(h.Body, "attr:")]; !ok {
 				tags["body-attr-absent"] = true
+			}
+		}
+		if strings.HasPrefix(h.Body, "attr:") && prt.Kind == spec.Object {
+			if a := prt.Attr(strings.TrimPrefix(h.Body, "attr:")); a != nil && a.Type.Kind == spec.Union {
+				// Body("x") with x a OneOf attribute: neither generated half moves the union between payload and body (listed finding)
+				tags["body-is-union"] = true
 			}
 		}
 		// a required map-typed query parameter is absent while the query string carries other parameters: the
